@@ -265,7 +265,10 @@ impl Manifest {
                     last_rollover,
                     poison: None,
                 };
-                if manifest.is_file() {
+                // A MANIFEST without a single complete edit (a crash right after it was created)
+                // has nothing to roll up:  rolling it over would start the new file with an empty
+                // edit, ahead of whatever the caller records first.
+                if manifest.is_file() && !(this.strs.is_empty() && this.info.is_empty()) {
                     this.rollover()?;
                 }
                 Ok(this)
